@@ -4,4 +4,4 @@ Require Import PV.Model.KeyStruct.
 Require Extraction.
 Require Import ExtrOcamlBasic.
 Extraction "../ocaml/gen/ex_c14.ml" import export copy pubkey_of uids_sortedb sortedb item_lt sig_lt strip_nonexportable
-  import_prefix_f9 import_prefix_f2 import_prefix_dup import_old_selfsig import_pre_bf7 copy_prefix tops Z.add Z.mul.
+  import_prefix_f9 import_prefix_f2 import_prefix_dup import_old_selfsig import_pre_bf7 import_pre_orphanfix copy_prefix tops Z.add Z.mul.
